@@ -529,6 +529,19 @@ def judge_builder(ctx, rng, nleaves, which):
                            'leaves': leaves})
 
 
+def from_library(e) -> bool:
+    """did the exception come out of the code under test (innermost frame in
+    the tapescript package)? a failure of the harness itself stays a harness
+    error"""
+    tb = e.__traceback__
+    last = None
+    while tb is not None:
+        last = tb
+        tb = tb.tb_next
+    fn = last.tb_frame.f_code.co_filename if last is not None else ''
+    return '/tapescript/' in fn and '/tsverif/' not in fn
+
+
 def run_shard(spec, ctx):
     i, of = spec['shard'], spec['of']
     maxleaves = 6 if ctx.tier == 'quick' else 10
@@ -540,8 +553,18 @@ def run_shard(spec, ctx):
                 idx += 1
                 if idx % of != i:
                     continue
-                judge_tree(ctx, ctx.rng(('tree', idx)), shape,
-                           f'shape{n}:{idx}')
+                try:
+                    judge_tree(ctx, ctx.rng(('tree', idx)), shape,
+                               f'shape{n}:{idx}')
+                except BaseException as e:
+                    if not from_library(e):
+                        raise
+                    # the tree classes raised on a tree of valid leaves: a
+                    # committed branch cannot get its unlocking script
+                    ctx.violation('tree-classes-raised', f'shape{n}:{idx}: '
+                                  f'{type(e).__name__}: {e}'[:200],
+                                  {'kind': 'tree-raised', 'shape': repr(shape),
+                                   'idx': idx, 'n': n})
                 if idx % 16 == 0:
                     ctx.sample({'shape': repr(shape), 'leaves': n})
         ctx.exhaustive(f'all binary tree shapes with 2..{maxleaves} leaves, '
@@ -551,8 +574,16 @@ def run_shard(spec, ctx):
             for which in ('prioritized', 'balanced'):
                 for r in range(reps):
                     if (n * 2 + (which == 'balanced') + r) % of == i:
-                        judge_builder(ctx, ctx.rng(('b', n, which, r)), n,
-                                      which)
+                        try:
+                            judge_builder(ctx, ctx.rng(('b', n, which, r)), n,
+                                          which)
+                        except BaseException as e:
+                            if not from_library(e):
+                                raise
+                            ctx.violation('builder-raised', f'{which}:{n}: '
+                                          f'{type(e).__name__}: {e}'[:200],
+                                          {'kind': 'builder-raised',
+                                           'which': which, 'n': n, 'r': r})
         ctx.count('monitor.dispatches', Tr.total)
         ctx.count('trees_built_with_interleaved_queries', Q.interleaved)
     finally:
@@ -598,6 +629,24 @@ def replay(case, ctx):
                     Tr.counts.get(case['foreign'], 0):
                 ctx.violation('builder-tree-admits-foreign-leaf', 'replay',
                               case, False, repr(got)[:60])
+        elif k in ('tree-raised', 'builder-raised'):
+            # the recorded position is regenerated from the run's seed
+            ctx.evaluated()
+            try:
+                if k == 'tree-raised':
+                    judge_tree(ctx, ctx.rng(('tree', case['idx'])),
+                               eval(case['shape'], {'None': None}),
+                               f"shape{case['n']}:{case['idx']}")
+                else:
+                    judge_builder(ctx, ctx.rng(('b', case['n'], case['which'],
+                                                case['r'])), case['n'],
+                                  case['which'])
+            except BaseException as e:
+                if not from_library(e):
+                    raise
+                ctx.violation('tree-classes-raised' if k == 'tree-raised'
+                              else 'builder-raised',
+                              f'replay: {type(e).__name__}: {e}'[:200], case)
         else:
             ctx.evaluated()
     finally:
